@@ -1,0 +1,24 @@
+//go:build verif && verif_internal
+
+package otp
+
+// Thin exports of unexported pure stages for stage-wise enumeration (build tags "verif,verif_internal" only).
+
+func VerifTruncate(sum []byte, mod uint64) uint32        { return truncate(sum, mod) }
+func VerifMod10() []uint64                               { return append([]uint64(nil), mod10[:]...) }
+func VerifShortDigit(v uint32, digits int) string        { return string([]byte(shortDigit(v, digits))) }
+func VerifLongDigit(v uint32, digits int) string         { return longDigit(v, digits) }
+func VerifFormatDecimal(v uint32, digits int) string     { return formatDecimal(v, digits) }
+func VerifPadBytes(in []byte, n int) []byte              { return padBytes(in, n) }
+func VerifChallengeLength(f ChallengeFormat) int         { return challengeLength(f) }
+func VerifParseRawSuite(raw string) (SuiteConfig, error) { return parseRawSuite(raw) }
+func VerifKnownSuites() map[string]SuiteConfig {
+	m := make(map[string]SuiteConfig, len(knownSuites))
+	for k, v := range knownSuites {
+		m[k] = v
+	}
+	return m
+}
+func VerifDeriveRFC4226(secret []byte, counter uint64, digits int, algo Algorithm) (string, error) {
+	return deriveRFC4226(secret, counter, digits, algo)
+}
